@@ -358,7 +358,8 @@ def run(rec, tier, seed):
         doms = [{'length': 24, 'dr': 0.1}, {'length': 50, 'dk': 0.05}, {'length': 3, 'dr': 0.2}, {'length': 127, 'dk': 0.1}]
     else:
         doms = [{'length': 24, 'dr': 0.1}, {'length': 50, 'dk': 0.05}, {'length': 3, 'dr': 0.2}, {'length': 100, 'dr': 0.1},
-                {'length': 127, 'dk': 0.1}, {'length': 256, 'dr': 0.025}]
+                {'length': 127, 'dk': 0.1}, {'length': 256, 'dr': 0.025}, {'length': 5, 'dk': 0.4}, {'length': 13, 'dr': 0.3}, {'length': 64, 'dr': 0.1},
+                {'length': 200, 'dk': 0.05}, {'length': 512, 'dr': 0.05}, {'length': 1000, 'dr': 0.1}]
     cases = []
     for d in doms:
         cases += cases_for(d, True)
